@@ -56,6 +56,19 @@ func (c *valueArrayCache) shrink(newlen int) {
 	}
 }
 
+func (o *objectGoArrayReflect) setReflectValue(v reflect.Value) {
+	o.objectGoReflect.setReflectValue(v)
+	if v.Kind() == reflect.Array {
+		// the elements of an array are part of the value: their wrappers move with it
+		// (a slice value still shares its backing array)
+		for i, w := range o.valueCache {
+			if w != nil && i < v.Len() {
+				w.setReflectValue(v.Index(i))
+			}
+		}
+	}
+}
+
 func (o *objectGoArrayReflect) _init() {
 	o.objectGoReflect.init()
 	o.class = classArray
